@@ -34,9 +34,9 @@ type rabBackend struct {
 
 func newRabBackend(suite vssSuite, q *big.Int) *rabBackend { return &rabBackend{suite: suite, q: q} }
 
-func (b *rabBackend) variant() string { return "r" }
-func (b *rabBackend) hlog() *big.Int  { return b.h }
-func (b *rabBackend) secret() *big.Int { return b.sec }
+func (b *rabBackend) variant() string   { return "r" }
+func (b *rabBackend) hlog() *big.Int    { return b.h }
+func (b *rabBackend) secret() *big.Int  { return b.sec }
 func (b *rabBackend) dealerSID() []byte { return b.dealer.SessionID() }
 
 func (b *rabBackend) setup(n, t int) error {
